@@ -11,6 +11,7 @@ pub mod infogrammar;
 pub mod oracle;
 pub mod procprops;
 pub mod report;
+pub mod sched;
 pub mod searchrun;
 pub mod seeds;
 pub mod session;
@@ -71,6 +72,22 @@ pub fn main() -> i32 {
         "C09" => procprops::c09_run(&args),
         "C14" => procprops::c14_run(&args),
         "C15" => procprops::c15_run(&args),
+        "C10" => sched::run(&args),
+        "sched-debug" => {
+            let idx: usize = args.rest.first().and_then(|x| x.parse().ok()).unwrap_or(0);
+            let choices: Vec<usize> = args.rest.iter().skip(1).filter_map(|x| x.parse().ok()).collect();
+            let (name, script) = sched::scripts().swap_remove(idx);
+            let o = sched::execute(&script, &choices, 777);
+            println!("script {name} {script:?}");
+            println!("points  {:?}", o.choice_points);
+            println!("choices {:?}", o.choices);
+            for t in &o.trace {
+                println!("  {t}");
+            }
+            println!("bestmoves {:?} readyok {} errors {:?}", o.bestmoves, o.readyoks, o.errors);
+            println!("complaints {:?} machinery {:?}", o.complaints, o.machinery);
+            0
+        }
         "worker" => {
             let Some(id) = args.rest.first().cloned() else { return 2 };
             let Some(w) = workers::Worker::from_args(&args.rest) else {
@@ -116,6 +133,7 @@ fn replay(path: &str) -> i32 {
         "C09" => goprops::replay_c09(&doc),
         "C14" => goprops::replay_c14(&doc),
         "C15" => procprops::replay_c15(&doc),
+        "C10" => sched::replay(&doc),
         _ => {
             eprintln!("no replay for property {prop}");
             2
